@@ -64,7 +64,11 @@ FUNCTIONS = list(_s.FUNCTIONS) + [
         # the quality is the hundredth nearest to f (C18: a written q=0.29 reads back as 29, not 28)
         ensures vs_exc == 0 ==> ((double)RET.val_ - f * 100.0 <= 0.5 && f * 100.0 - (double)RET.val_ <= 0.5)
         ensures vs_exc == 0 || vs_exc == VS_EXC_RUNTIME_ERROR"""},
-    {'q': 'Pistache::Http::Mime::MediaType::parseRaw', 'hoist_all': True, 'contract': """
+    {'q': 'Pistache::Http::Mime::MediaType::parseRaw', 'hoist_all': True,
+     # C18 (any letter case): the quality parameter is recognised under either case -- a parameter whose name is `q` or `Q` never ends up
+     # among the ordinary parameters (asserted where the key of an ordinary parameter is cut out of the text)
+     'after_decl': {'key': '__CPROVER_assert(vs_exc != 0 || key.size != 1 || ((key.src[0] | 0x20) != \'q\'), "C18: a parameter named q (either case) is the quality value, not an ordinary parameter");'},
+     'contract': """
         requires FRESH(this, sizeof(*this)) && len <= MAXLEN && FRESH(str, len) && vs_exc == 0 && (this->q_.has ==> this->q_.val <= 100)
         assigns *this, vs_exc, vs_exc_code, g_hit_end, g_j, g_w, g_app_src
         # C18: every byte read lies in [str, str+len): the text is an object of exactly len bytes, so any other read fails a bounds check.
